@@ -341,9 +341,30 @@ def slice_harnesses():
     return hs
 
 
+def graph_harnesses():
+    hs = []
+    for tag in ("kmer3", "kmer4", "kmer5"):
+        ty, k = KT_BY_TAG[tag][1], KT_BY_TAG[tag][2]
+        for extra in (3, 6):
+            l0, l1 = k + extra, k
+            hs.append(H("c18_node_kmer_iter__%s__l%d" % (tag, l0), ["C18"],
+                        "crate::graph_ops::node_kmer_iter::<%s, %d, %d>()" % (ty, l0, l1), unwind=l0 + l1 + 4, cap=600,
+                        stubs=["S1", "S2"], tier="quick" if (tag, extra) in (("kmer4", 3), ("kmer3", 6)) else "thorough",
+                        funcs=["NodeKmer::into_iter", "NodeKmerIter::next", "NodeKmerIter::nth", "NodeKmerIter::size_hint",
+                               "ExactSizeIterator::len", "DebruijnGraph::get_node_kmer", "DnaStringSlice::get_kmer"],
+                        bounds="2-node graph (node 0: %d bases = %d k-mers, node 1: %d bases = 1 k-mer; all bases, both nodes iterated), every sequence of 3 calls each next() or nth(n), n in 0..=7" % (l0, extra + 1, l1)))
+        hs.append(H("c18_node_into_iter__%s" % tag, ["C18"],
+                    "crate::graph_ops::node_into_iter::<%s, %d, %d>()" % (ty, k + 2, k), unwind=2 * k + 8, cap=600,
+                    stubs=["S1", "S2"], tier="quick" if tag == "kmer4" else "thorough",
+                    funcs=["IntoIterator for &DebruijnGraph", "NodeIntoIter::next", "DebruijnGraph::iter_nodes", "NodeIter::next", "Node::len"],
+                    bounds="2-node graph (%d and %d bases), all bases" % (k + 2, k)))
+    return hs
+
+
 def all_harnesses():
     hs = []
     hs += kmer_harnesses()
+    hs += graph_harnesses()
     hs += slice_harnesses()
     hs += dnastring_harnesses()
     hs += exts_harnesses()
